@@ -601,7 +601,7 @@ pub fn run_live_th(seed: u64, rt: &tokio::runtime::Runtime) -> Outcome {
         v.push((c.clone(), d.clone()));
     }
     drop(actor);
-    th::wait_until(10_000, || vt::global_leaks().is_empty());
+    let _ = crate::th::settle_leaks();
     for l in vt::global_leaks() {
         v.push(("leak".into(), l));
     }
